@@ -7,9 +7,9 @@ import (
 	"fmt"
 	"math/rand"
 	"net/url"
+	"regexp"
 	"servitor/ansi"
 	"servitor/jtp"
-	"regexp"
 	"servitor/pub"
 	"strings"
 	"time"
@@ -141,8 +141,11 @@ func collectIds(t any, out map[string]bool) {
 	}
 }
 
-/* every string of a typed tree that may be used as a reference: all but the values of the keys
-   that hold text (the code never dereferences those) */
+/*
+every string of a typed tree that may be used as a reference: all but the values of the keys
+
+	that hold text (the code never dereferences those)
+*/
 func collectRefStrings(t any, out map[string]bool) {
 	m, ok := t.(map[string]any)
 	if !ok {
@@ -255,6 +258,7 @@ type worldGen struct {
 	n      int
 	query  bool // every object of a host lives at the same path; identifiers differ in the query only
 	rel    bool // references are sometimes written relative to the referring object
+	quiet  bool // documents served right now are never replaced by a 404
 }
 
 /* the last path segment an object called `name` is served under */
@@ -280,7 +284,7 @@ func (g *worldGen) serve(h int, name string, fields map[string]any) string {
 	fields["name"] = fmt.Sprintf("%s#%d@H%d", name, g.n, h)
 	fields["stamp"] = fmt.Sprintf("H%d", h)
 	status := "HTTP/1.0 200 OK"
-	if g.r.Intn(25) == 0 {
+	if g.r.Intn(25) == 0 && !g.quiet {
 		status = "HTTP/1.0 404 Gone"
 	}
 	resp := status + "\r\nContent-Type: application/activity+json\r\n\r\n" + jsonDoc(fields)
@@ -354,7 +358,6 @@ func (g *worldGen) vary(u string, fromHost int) string {
 	if g.r.Intn(5) != 0 {
 		return u
 	}
-	sameHost := strings.HasPrefix(u, fmt.Sprintf("https://{H%d}/", fromHost))
 	switch g.r.Intn(12) {
 	case 0:
 		return strings.Replace(u, "https://", "https://user@", 1)
@@ -374,6 +377,16 @@ func (g *worldGen) vary(u string, fromHost int) string {
 	if !g.rel {
 		return u
 	}
+	return g.relative(u, fromHost)
+}
+
+/*
+`u` written relative to an object that lives on `fromHost` (wrong on purpose when `u` lives elsewhere
+
+	and the spelling has no host)
+*/
+func (g *worldGen) relative(u string, fromHost int) string {
+	sameHost := strings.HasPrefix(u, fmt.Sprintf("https://{H%d}/", fromHost))
 	path := hostRe.ReplaceAllString(u, "")
 	switch g.r.Intn(7) {
 	case 0:
@@ -395,8 +408,11 @@ func (g *worldGen) vary(u string, fromHost int) string {
 	return u
 }
 
-/* a reference to an object: by URL (in any spelling), embedded in full (with or without its id),
-   as a stub, or through a redirect */
+/*
+a reference to an object: by URL (in any spelling), embedded in full (with or without its id),
+
+	as a stub, or through a redirect
+*/
 func (g *worldGen) refTo(fromHost int, url string, fields map[string]any) any {
 	switch weighted(g.r, 10, 5, 4, 2, 2) {
 	case 0:
@@ -765,7 +781,7 @@ func genCollWorld(r *rand.Rand, emit func(Op)) {
 	for k := np - 1; k >= 0; k-- {
 		h := hostOf[k]
 		page := map[string]any{"type": kindPage, itemsKey: items(h)}
-		switch weighted(r, 5, 2, 1) {
+		switch weighted(r, 8, 4, 1) {
 		case 0:
 			page["id"] = pageURL(k)
 		case 2:
@@ -774,6 +790,9 @@ func genCollWorld(r *rand.Rand, emit func(Op)) {
 		var next any
 		if k < np-1 {
 			next = g.vary(pageURL(k+1), h)
+			if g.rel && r.Intn(2) == 0 {
+				next = g.relative(pageURL(k+1), h) // the page's own id is what it is resolved against
+			}
 			if r.Intn(6) == 0 {
 				g.n++
 				next = g.redirect(pick(r, []int{home, other}), fmt.Sprintf("redir%d", g.n), pageURL(k+1))
@@ -803,7 +822,9 @@ func genCollWorld(r *rand.Rand, emit func(Op)) {
 		if r.Intn(5) == 0 {
 			page["totalItems"] = r.Intn(3)
 		}
+		g.quiet = r.Intn(12) != 0
 		g.serve(h, pageName(k), page)
+		g.quiet = false
 	}
 	root := map[string]any{"type": kindRoot, "id": rootURL, "totalItems": pick(r, []any{0, 7, 100000, "7", nil}), "first": g.vary(pageURL(0), home)}
 	if r.Intn(3) == 0 {
